@@ -1560,6 +1560,8 @@ class Interp:
         ck = self.dict_key(key)
         if ck is not None and ck[1] in o.entries:
             return o.entries[ck[1]]
+        if getattr(o, "is_counter", False) and default is None and ck is not None and not o.each and not o.sym:
+            return Const(0)  # collections.Counter: a key never counted reads as 0 (and is not stored)
         if getattr(o, "default_factory", None) is not None and default is None and ck is not None and not o.each and not o.sym:
             # collections.defaultdict: a missing key gets the factory's value, which is stored and handed out
             v_new = self.call(o.default_factory, [], {}, node)
@@ -2903,8 +2905,22 @@ class Interp:
                 self.err(node, "starred sequence pattern")
             return len(items) == len(pat.patterns) and all(self._match(p_, x, binds, node) for p_, x in zip(pat.patterns, items))
         if isinstance(pat, ast.MatchClass):
-            cv = self.eval(pat.cls)
             o = self.deref(v) if isinstance(v, Ref) else None
+            # builtin containers as class patterns without sub-patterns: dict() / list() / set() / tuple() / str() / int()
+            if isinstance(pat.cls, ast.Name) and pat.cls.id in ("dict", "list", "set", "tuple", "str", "int", "bool") and not pat.patterns and not pat.kwd_attrs \
+                    and (o is not None or isinstance(v, (TupleV, Const))):
+                kind = pat.cls.id
+                if isinstance(o, HObj):
+                    return False  # (an object of the repository is none of the builtin containers; subclasses of them are not modelled as HObj)
+                if isinstance(o, HDict):
+                    return kind == "dict"
+                if isinstance(o, HList):
+                    return kind == ("set" if o.is_set else "list")
+                if isinstance(v, TupleV):
+                    return kind == "tuple"
+                if isinstance(v, Const):
+                    return {"str": str, "int": int, "bool": bool}.get(kind, ()) != () and isinstance(v.value, {"str": str, "int": int, "bool": bool}[kind]) if kind in ("str", "int", "bool") else False
+            cv = self.eval(pat.cls)
             if not (isinstance(cv, ClassV) and isinstance(o, HObj)):
                 self.err(node, f"class pattern {ast.unparse(pat.cls)} on {v!r}")
             if cv.qualname not in self.prog.mro(o.cls):
